@@ -250,3 +250,60 @@ class TermGen:
     extra_fields: dict = {}
 
 # }}}
+
+
+# {{{ hash-colliding variants
+
+# pymbolic hashes a node as the tuple of its fields, without the class: nodes of different
+# classes with the same fields have equal hashes (legitimately -- they are unequal), and so
+# do -1 and -2 in CPython.  Variants built this way are unequal twins with *equal hashes*:
+# exactly what a cache keyed on hash(expr), or an __eq__ that trusts the hash, conflates.
+SWAP_GROUPS = [
+    ["Sum", "Product", "Min", "Max", "LogicalAnd", "LogicalOr", "BitwiseOr", "BitwiseXor",
+     "BitwiseAnd"],
+    ["Quotient", "FloorDiv", "Remainder", "Power", "LeftShift", "RightShift"],
+    ["BitwiseNot", "LogicalNot"],
+]
+
+
+def collide_variant(r, t, allowed=None, nested_only=False):
+    """A copy of term t that differs in the class of one node (same field shape) or in one
+    -1/-2 constant; None if t offers no such position."""
+    import copy
+    paths = []
+
+    def walk(x, path, depth):
+        k = x[0]
+        if k == "n":
+            if not (nested_only and depth == 0):
+                for g in SWAP_GROUPS:
+                    if x[1] in g and any(c != x[1] and (allowed is None or c in allowed)
+                                         for c in g):
+                        paths.append(("cls", path))
+            for j, c in enumerate(x[2]):
+                walk(c, path + [2, j], depth + 1)
+        elif k == "t":
+            for j, c in enumerate(x[1]):
+                walk(c, path + [1, j], depth)
+        elif k == "i" and x[1] in (-1, -2):
+            paths.append(("const", path))
+
+    walk(t, [], 0)
+    if not paths:
+        return None
+    kind, path = r.choice(paths)
+    t2 = copy.deepcopy(t)
+    node = t2
+    for step in path:
+        node = node[step]
+    if kind == "const":
+        node[1] = -3 - node[1]       # -1 <-> -2
+    else:
+        for g in SWAP_GROUPS:
+            if node[1] in g:
+                node[1] = r.choice([c for c in g if c != node[1]
+                                    and (allowed is None or c in allowed)])
+                break
+    return t2
+
+# }}}
